@@ -441,6 +441,25 @@ def exists_key(gens, lits):
         for c in conds:
             ls |= lits_of(c)
         g2.append((base, it, ()))
+    if len(g2) == 1 and g2[0][1][0] == 'comp' and g2[0][1][1] in (
+            'gen', 'list') and len(g2[0][1][3]) == 1:
+        # some x in (e(y) for y in G if c(y)) satisfies P(x)
+        #   ==  some y in G satisfies c(y) and P(e(y))
+        base = g2[0][0]
+        elt = g2[0][1][2]
+        ibase, iit, iconds = g2[0][1][3][0]
+
+        def sub(k):
+            if k == base:
+                return elt
+            if isinstance(k, tuple):
+                return tuple(sub(x) if isinstance(x, tuple) else x
+                             for x in k)
+            return k
+        ls = set(sub(l) for l in ls)
+        for c in iconds:
+            ls |= lits_of(c)
+        g2 = [(ibase, iit, ())]
     return ('exists', tuple(g2), tuple(sorted(simplify_lits(ls), key=_sk)))
 
 
@@ -1312,6 +1331,38 @@ class Evaluator(object):
                 and not kws and args[0][0] == 'comp' \
                 and args[0][1] == 'list':
             args[0] = ('comp', 'gen') + args[0][2:]
+        if fk == ('attr', ('const', ''), 'join') and len(args) == 1 \
+                and not kws and args[0][0] == 'strcat':
+            # ''.join([a, b] + [f(x) for x in xs] + [c])
+            #   ==  a + b + ''.join(f(x) for x in xs) + c
+            segs = []
+
+            def flat(k):
+                if k[0] == 'strcat':
+                    flat(k[1])
+                    flat(k[2])
+                else:
+                    segs.append(k)
+            flat(args[0])
+            if all(g[0] == 'list' or (g[0] == 'comp' and g[1] in (
+                    'list', 'gen')) for g in segs):
+                out = ('const', '')
+                for g in segs:
+                    if g[0] == 'list':
+                        for piece in g[1]:
+                            out = strcat(out, piece)
+                    else:
+                        out = strcat(out, ('call', fk, ((
+                            'comp', 'gen') + g[2:],), ()))
+                return out
+        if fk == ('attr', ('const', ''), 'join') and len(args) == 1 \
+                and not kws and args[0][0] in ('list', 'tuple') \
+                and args[0][1]:
+            # ''.join([a, b, c])  ==  a + b + c   (texts, or it raises)
+            out = ('const', '')
+            for piece in args[0][1]:
+                out = strcat(out, piece)
+            return out
         if cname in ('list', 'tuple') and len(args) == 1 and not kws \
                 and args[0][0] == 'comp' and args[0][1] in ('gen', 'list'):
             # list(<genexp>) == [<comp>]
@@ -1964,9 +2015,19 @@ class Summarizer(Evaluator):
                 hit = _find_expr(hdr, lambda x: isinstance(x, ast.Call)
                                  and self._resolve(x) is not None)
                 if hit is not None:
+                    # state-changing calls among the arguments run before
+                    # the helper's body
+                    pre = self._impure_roots(hdr)
+                    if pre:
+                        st.heap[_PENDING] = pre
                     r = self._inline(n, hit, st)
                     if r is not None:
+                        for s2, o2 in r:
+                            late = s2.heap.pop(_PENDING, None)
+                            if late:
+                                self._bump(s2, late)
                         return r
+                    st.heap.pop(_PENDING, None)
         roots = self._impure_roots(hdr) if hdr else ()
         if isinstance(n, (ast.For, ast.While)):
             roots = self._impure_roots([n])
@@ -2260,14 +2321,19 @@ class Summarizer(Evaluator):
             for f in ast.walk(mod):
                 if isinstance(f, ast.FunctionDef):
                     for x in ast.walk(f):
-                        if isinstance(x, ast.Return) and isinstance(
-                                x.value, ast.Name) and x.value.id == name:
+                        if isinstance(x, ast.Return) and x.value is not None \
+                                and any(isinstance(y, ast.Name)
+                                        and y.id == name
+                                        for y in ast.walk(x.value)):
                             returners.add(f.name)
             for x in ast.walk(mod):
                 if isinstance(x, ast.Name) and x.id == name and x is not bind:
                     par = getattr(x, '_parent', None)
                     if isinstance(par, ast.Return) and par.value is x:
                         continue
+                    if isinstance(par, ast.Tuple) and isinstance(
+                            getattr(par, '_parent', None), ast.Return):
+                        continue        # return value, _X
                     if isinstance(par, ast.Compare) and all(isinstance(
                             o, (ast.Is, ast.IsNot)) for o in par.ops):
                         continue
@@ -2768,6 +2834,13 @@ class Summarizer(Evaluator):
         else:
             cls = src(n.exc)
             args = ()
+            if isinstance(n.exc, ast.Name) and n.exc.id in st.env:
+                # `err = SomeError(...)` (or a helper that builds it, read
+                # in place) ... `raise err`
+                vk = key(st.env[n.exc.id])
+                if vk[0] == 'call' and vk[1][0] == 'name' and not vk[3] \
+                        and vk[1][1][:1].isupper():
+                    cls, args = vk[1][1], tuple(vk[2])
         return [(st, ('raise', cls, args))]
 
     def st_Assert(self, n, st):
@@ -3207,8 +3280,7 @@ class Summarizer(Evaluator):
             pk = key(post)
             if pk == sk:
                 continue
-            if prek[0] == 'const' and isinstance(prek[1], str) \
-                    and pk[0] == 'poly':
+            if stringy(prek) and pk[0] == 'poly':
                 # text += piece, written where the engine could not yet
                 # know the accumulator is a text
                 delta = to_poly(post) - to_poly(start)
@@ -3237,10 +3309,25 @@ class Summarizer(Evaluator):
             # every way through the body adds the same piece
             changing = changing[:1]
             fall_states = changing
+        extra_conds = None
+        if len(changing) == 2 and len(fall_states) == 2:
+            # two complementary ways through the body, each adding a piece:
+            # one conditional piece
+            l1 = set(path_lits(changing[0][0]))
+            l2 = set(path_lits(changing[1][0]))
+            d1, d2 = l1 - l2, l2 - l1
+            if len(d1) == 1 and len(d2) == 1 and b_not(
+                    next(iter(d1))) == next(iter(d2)):
+                c = next(iter(d1))
+                piece = ifexp(c, changing[0][1], changing[1][1])
+                extra_conds = tuple(sorted(l1 & l2, key=_sk))
+                changing = [(changing[0][0], piece)]
         if len(changing) != 1:
             return None
         s, piece = changing[0]
         conds = path_lits(s) if len(fall_states) > 1 else ()
+        if extra_conds is not None:
+            conds = extra_conds
         base, it, _ = gens_key[0]
         gens = ((base, it, conds),)
         if piece[0] == 'list' and len(piece[1]) == 1 and listlike(prek):
@@ -3251,7 +3338,7 @@ class Summarizer(Evaluator):
         if piece[0] == 'tuple' and len(piece[1]) == 1 and prek[0] == 'tuple':
             return strcat(prek, ('call', ('name', 'tuple'), ((
                 'comp', 'gen', piece[1][0], gens),), ()))
-        if prek[0] == 'const' and isinstance(prek[1], str):
+        if stringy(prek):
             return strcat(prek, ('call', ('attr', ('const', ''), 'join'), ((
                 'comp', 'gen', piece, gens),), ()))
         return None
